@@ -7,7 +7,7 @@ TRUSTED = [
     "tools/extract_consts.py (regex-level translator of named Rust constants), cross-checked against the running binary's `consts` dump on every run",
     "hand-written Lean model of the control flow, tied to the code by the correspondence on this run's inputs (differential testing: exhaustive for tables/constants, seeded sampling elsewhere)",
     "Jence/Spec (rules of chess on a mailbox board, plain minimax, cache and session contracts) is trusted to say what the property means; validated against published perft values",
-    "modelled, not verified: x86 PEXT/TZCNT/BLSR semantics, Rust release-mode integer semantics, std::sync::mpsc as a FIFO, OS delivery of stdin lines, wall clock, rayon scheduling",
+    "modelled, not verified: x86 PEXT/TZCNT/BLSR semantics, Rust release-mode integer semantics, fixed array capacities (move list 256, history 1000: lists are unbounded in the model; the history bound is finding D7), std::sync::mpsc as a FIFO, OS delivery of stdin lines, wall clock, rayon scheduling",
 ]
 
 
@@ -2053,11 +2053,41 @@ def promo_check_families():
     return out
 
 
+def big_swing_positions(ctx, n):
+    """random boards with pawns of the mover on the 7th rank next to capturable pieces and heavy pieces en prise: capture
+    sequences that win far more than a queen (what a margin-based pruning of the capture search would cut off)"""
+    rng = random.Random(ctx.seed + 191)
+    out = []
+    tries = 0
+    while len(out) < n and tries < 40 * n:
+        tries += 1
+        b = ['1'] * 64
+        def put(pc, lo=0, hi=64):
+            for _ in range(20):
+                sq = rng.randrange(lo, hi)
+                if b[sq] == '1':
+                    b[sq] = pc; return sq
+            return None
+        put('K', 16, 64); put('k', 0, 64)
+        for _ in range(rng.choice([1, 2, 3])): put('P', 8, 16)
+        for pc in rng.sample(['n', 'r', 'b', 'q', 'r', 'n'], rng.choice([2, 3, 4])): put(pc, 0, 8)
+        for pc in rng.sample(['q', 'r', 'b', 'p', 'p', 'q'], rng.choice([2, 3, 4])): put(pc, 8, 64) if pc != 'p' else put(pc, 16, 56)
+        for pc in rng.sample(['R', 'B', 'Q', 'P', 'N'], rng.choice([1, 2, 3])): put(pc, 16, 64) if pc != 'P' else put(pc, 16, 48)
+        fen = board_to_rows(b) + ' w - - 0 1'
+        if rng.random() < 0.5: fen = color_mirror_fen(fen)
+        w = ctx.model.ask('oracle wf ' + fen + ' ; ')
+        if not w or not w[0].startswith('wf 1 nk 1'): continue
+        info = legal_info(ctx, fen)
+        if not info or info[3] != 'no': continue
+        out.append(fen)
+    return out
+
+
 def check_C19(ctx):
     consts_compare(ctx, ['MATE_VALUE', 'INFINITY', 'MAX_PLY'] + C16_ROWS)
     roots = search_roots(ctx, 220 if ctx.quick else 5000)
     nval_jobs = []
-    extra = [(f, [], f, legal_info(ctx, f)) for f in load_regressions('C19') + promo_check_families()[:: (4 if ctx.quick else 1)]]
+    extra = [(f, [], f, legal_info(ctx, f)) for f in load_regressions('C19') + promo_check_families()[:: (4 if ctx.quick else 1)] + big_swing_positions(ctx, 40 if ctx.quick else 1500)]
     for base, moves, fen, info in extra + roots:
         if not info or info[3] != 'no': continue
         if int(fen.split()[4]) >= 90: continue
